@@ -11,19 +11,24 @@ from mc import driver as D
 
 PROP = 'C08'
 RULE = ('explicit-state exploration of the real Executor: ALL sequences of d operations (d=3 quick, 4 thorough) over the '
-        'operation alphabet (get_cell in numeric / letters+row-text / title-by-name / title-by-index spellings, the same Cell '
+        'operation alphabet (get_cell in numeric / letters+row-text / title-by-name / title-by-index / title-with-numbers spellings, the same Cell '
         'object reused, get_cells of pairs, get_sheet by index and by title, three set_cells); oracle: a fresh executor with '
         'the same overrides; invariants: override map = model, sheet sizes = used range extended by overrides, grid = '
         'last_row x last_column entries each equal to the single-cell query.  non-trivial = history with at least two '
         'queries, or a query after an override')
 ASSUMPTIONS = ['a cell whose formula raises makes get_sheet raise the same exception type (the grid cannot hold a value for it)']
 
+# K1/K2: two criteria that are equal as Python values (TRUE and 1) over a mixed range: a helper that keeps state between
+# calls shows up as an answer that depends on which of the two was asked first.  The last sheet is titled with digits
+# that are not its position.
 BASE = [('S', {'A1': 10, 'B1': '=A1*2', 'C1': '=B1+A1', 'F1': '=H9+1', 'B2': 3, 'C2': '=SUM(A1:A2)', 'D2': '=A2&"|"', 'A4': 'x', 'AB2': 9,
-               'E1': '=AB2+1'}),
+               'E1': '=AB2+1', 'I1': True, 'I2': 1, 'I3': 0, 'I4': False, 'K1': '=COUNTIFS(I1:I4,TRUE)+10*SUMIF(I1:I4,0,J1:J4)',
+               'K2': '=COUNTIFS(I1:I4,1)+10*SUMIF(I1:I4,FALSE,J1:J4)', 'J1': 1, 'J2': 2, 'J3': 4, 'J4': 8}),
         ('T 2', {'A1': 7, 'B1': '=S!A1+A1'}),
-        ('E', {'A1': '=1/0', 'B1': '=A1+1', 'C3': 5})]
-TIDX = {'S': 0, 'T 2': 1, 'E': 2}
-BASE_SIZE = {0: (28, 4), 1: (2, 1), 2: (3, 3)}  # (last_column, last_row) from the planted cells
+        ('E', {'A1': '=1/0', 'B1': '=A1+1', 'C3': 5}),
+        ('1', {'A1': 42, 'B1': '=A1+1'})]
+TIDX = {'S': 0, 'T 2': 1, 'E': 2, '1': 3}
+BASE_SIZE = {0: (28, 4), 1: (2, 1), 2: (3, 3), 3: (2, 1)}  # (last_column, last_row) from the planted cells
 
 
 def cn(letters):
@@ -55,7 +60,7 @@ def mk(addr, how):
 
 
 CELLS = {'A1': ('S', 'A', 1), 'C1': ('S', 'C', 1), 'F1': ('S', 'F', 1), 'A2': ('S', 'A', 2), 'D2': ('S', 'D', 2),
-         'H9': ('S', 'H', 9), 'TB1': ('T 2', 'B', 1), 'EA1': ('E', 'A', 1), 'EB1': ('E', 'B', 1), 'A3': ('S', 'A', 3), 'AB2': ('S', 'AB', 2), 'E1': ('S', 'E', 1)}
+         'H9': ('S', 'H', 9), 'TB1': ('T 2', 'B', 1), 'K1': ('S', 'K', 1), 'K2': ('S', 'K', 2), 'NB1': ('1', 'B', 1), 'EA1': ('E', 'A', 1), 'EB1': ('E', 'B', 1), 'A3': ('S', 'A', 3), 'AB2': ('S', 'AB', 2), 'E1': ('S', 'E', 1)}
 
 
 def _ops():
@@ -64,11 +69,12 @@ def _ops():
     for i, name in enumerate(CELLS):
         ops.append(('get_cell', name, hows[i % 2]))
     ops += [('get_cell', 'C1', 'num'), ('get_cell', 'TB1', 'idx_letters'), ('get_cell', 'H9', 'name_num'),
-            ('get_cell', 'F1', 'a1'), ('get_cell', 'AB2', 'a1'), ('get_cell', 'AB2', 'idx_letters')]
+            ('get_cell', 'F1', 'a1'), ('get_cell', 'AB2', 'a1'), ('get_cell', 'AB2', 'idx_letters'),
+            ('get_cell', 'TB1', 'name_num'), ('get_cell', 'C1', 'name_num'), ('get_cell', 'NB1', 'name_num')]
     ops += [('get_cell_reused', 'C1', 'a1'), ('get_cell_reused', 'TB1', 'a1')]
     ops += [('get_cells', ['C1', 'A1'], 'num'), ('get_cells', ['A1', 'C1'], 'a1'), ('get_cells', ['TB1', 'F1'], 'a1'),
             ('get_cells_same', ['C1'], 'a1')]
-    ops += [('get_sheet', 0), ('get_sheet', 'S'), ('get_sheet', 'T 2'), ('get_sheet', 'E')]
+    ops += [('get_sheet', 0), ('get_sheet', 'S'), ('get_sheet', 'T 2'), ('get_sheet', 'E'), ('get_sheet', '1'), ('get_sheet', 3)]
     ops += [('set_cells', [('A1', 5)]), ('set_cells', [(('S', 'J', 12), 1)]), ('set_cells', [('EA1', 2), ('A2', 4)]),
             ('set_cells', [('A1', 6), ('AB2', 0)])]
     return ops
@@ -81,7 +87,8 @@ OPS = _ops()
 CORE = [i for i, o in enumerate(OPS) if o in (
     ('get_cell', 'A1', 'num'), ('get_cell', 'C1', 'a1'), ('get_cell', 'H9', 'a1'), ('get_cell', 'EA1', 'a1'),
     ('get_cell', 'TB1', 'idx_letters'), ('get_cell', 'AB2', 'a1'), ('get_cell_reused', 'C1', 'a1'), ('get_cells', ['C1', 'A1'], 'num'),
-    ('get_cells_same', ['C1'], 'a1'), ('get_sheet', 0), ('get_sheet', 'T 2'), ('get_sheet', 'E'))
+    ('get_cells_same', ['C1'], 'a1'), ('get_sheet', 0), ('get_sheet', 'T 2'), ('get_sheet', 'E'), ('get_sheet', '1'),
+    ('get_cell', 'K1', 'a1'), ('get_cell', 'K2', 'num'), ('get_cell', 'TB1', 'name_num'))
         or o[0] == 'set_cells']
 
 
